@@ -15,7 +15,8 @@ import (
 // The wheel runs with its REAL goLoop and time.Ticker on the virtual clock (build tags
 // "verif faketime"). Request j is issued at virtual instant t0+r (t0 = NewWheel); kind T =
 // NewTimer(d) then wait on C; A = AfterFunc(d, cb); with <d2> the timer is Reset(d2) right
-// after it fired and waited for again. Output, per request: the virtual instant(s) at which
+// after it fired and waited for again; N = AfterFunc(d, cb) whose callback requests NewTimer(d2) on
+// the same wheel and waits for it. Output, per request: the virtual instant(s) at which
 // the timer became ready / the callback ran, relative to t0, or "panic".
 func init() {
 	register("c03f", func(toks []string) string {
@@ -78,6 +79,23 @@ func init() {
 						close(done)
 					})
 					<-done
+				case "N":
+					// re-entrancy: the AfterFunc callback itself requests a timer of the SAME wheel and
+					// waits for it (the callback runs on a goroutine of its own, so the wheel keeps ticking)
+					done := make(chan struct{})
+					w.AfterFunc(d, func() {
+						defer close(done)
+						defer func() {
+							if x := recover(); x != nil {
+								out[j] = "panic"
+							}
+						}()
+						out[j] = strconv.FormatInt(int64(time.Since(t0)), 10)
+						t := w.NewTimer(d2)
+						<-t.C
+						out[j] += "," + strconv.FormatInt(int64(time.Since(t0)), 10)
+					})
+					<-done
 				default:
 					panic("bad kind")
 				}
@@ -87,7 +105,7 @@ func init() {
 		go func() { wg.Wait(); close(fin) }()
 		select {
 		case <-fin:
-		case <-time.After(horizon + time.Hour):
+		case <-time.After(2*horizon + 100*step): // all fire instants lie within r + 2 revolutions; a short virtual watchdog keeps a stopped wheel from being ticked through an hour of tiny steps
 			w.Close()
 			return "HANG " + fmt.Sprint(out)
 		}
